@@ -79,6 +79,22 @@ def foo(n: size, x: R[8], y: R[8]):
     for j in seq(3, 6):
         y[j] = x[j]
 """),
+    ("names_shared_with_arguments", """
+@proc
+def callee(x: R[8]):
+    for kk in seq(0, 4):
+        x[kk] = x[kk] * 2.0
+
+@proc
+def foo(n: size, kk: index, x: R[8], y: R[8]):
+    assert kk >= 0
+    assert kk < 4
+    callee(x)
+    for n in seq(0, 3):
+        y[n] = x[kk] + 1.0
+    for kk in seq(4, 6):
+        y[kk] = 3.0
+"""),
     ("mult_dim_transposes", """
 @proc
 def foo(n: size, m: size, a: [R][n, m], b: R[n, m], c: R[4]):
@@ -218,6 +234,29 @@ def site_signature(p, descr: str) -> str:
         return "?"
 
 
+def op_tag(p, op, descr) -> str:
+    """operation-specific facts about the call site that identify a known finding"""
+    if op == "stage_mem":
+        m = re.search(r"win=(\w+)\[", descr)
+        if m:
+            buf = m.group(1)
+            aliased = []
+
+            def walk(ss):
+                for s in ss:
+                    if isinstance(s, LoopIR.WindowStmt):
+                        if str(s.rhs.name) == buf or str(s.rhs.name) in aliased or str(s.name) == buf:
+                            aliased.append(str(s.name))
+                    for attr in ("body", "orelse"):
+                        if hasattr(s, attr):
+                            walk(getattr(s, attr))
+
+            walk(p._loopir_proc.body)
+            if aliased:
+                return ":staged-buffer-has-window-alias"
+    return ""
+
+
 def cfg_dep(node) -> str:
     """does a condition/bound read a configuration field that the nested statements write?"""
     from exo.core.LoopIR import get_readconfigs, get_writeconfigs, GetReadConfigs
@@ -254,7 +293,7 @@ def relation_of(op, descr):
 
 class Search:
     def __init__(self, ck: common.Check, ops=None, exclude=None, features=None, n_inputs=None, chain=2,
-                 stream="rewrite-search", max_cands=None):
+                 stream="rewrite-search", max_cands=None, prefix_ops=None):
         self.ck = ck
         self.ops, self.exclude = ops, exclude or set()
         self.features = features
@@ -265,6 +304,7 @@ class Search:
         self.stats = {"programs": 0, "rejected_by_frontend": 0, "applied": 0, "refused": 0, "crashed": 0,
                       "compared": 0, "per_op": {}}
         self.crashes: list[dict] = []
+        self.prefix_ops = prefix_ops  # ops applied (unchecked here) before the explored ones, to vary the starting point
         self.max_cands = max_cands or ck.n(30, 80)
         self.deadline = None
         self.after_apply = []  # callbacks (old, new, op, descr, src) -> None, used by C04's static checks
@@ -310,7 +350,19 @@ class Search:
             self.stats["programs"] += 1
             self.sc.reset()
             cfgs = [v for v in vars(mod).values() if type(v).__name__ == "Config"]
-            self.explore(tag, src, mod.foo, cfgs, self.chain)
+            p, hist = mod.foo, []
+            if self.prefix_ops and self.ck.rng.random() < 0.6:
+                pre = [c for c in sched.candidates(p, random.Random(self.ck.rng.randrange(1 << 30)), configs=cfgs)
+                       if c[0] in self.prefix_ops]
+                self.ck.rng.shuffle(pre)
+                for op, descr, thunk in pre[:6]:
+                    try:
+                        p = thunk()
+                        hist = [(op, descr)]
+                        break
+                    except Exception:
+                        continue
+            self.explore(tag, src, p, cfgs, self.chain, history=hist)
         self.sc.close()
         return self.findings
 
@@ -351,7 +403,7 @@ class Search:
                 continue
             po["applied"] += 1
             self.stats["applied"] += 1
-            site = site_signature(p, descr)
+            site = site_signature(p, descr) + op_tag(p, op, descr)
             steps = list(history) + [(op, descr)]
             replay = {"program": tag, "source": src, "schedule": steps}
             for cb in self.after_apply:
